@@ -127,7 +127,7 @@ def run(ctx):
         for NB in range(1, 4):
             for NV in (0, 1, 2):
                 for ev_on in (False, True):
-                    for cb in ((False,) if q and (E + NB + NV) % 2 else (False, True)):
+                    for cb in ((False, "flip") if q and (E + NB + NV) % 2 else (False, True, "flip")):
                         seed += 1
                         try:
                             tr, info = TR.run_trainer(sg, E, NB, NV, 1 + (seed % 2), ev_on, cb, seed)
@@ -154,7 +154,7 @@ def run(ctx):
         return rep.finish()
     accepted = []
     for i, (tr, info) in enumerate(zip(traces, infos), start=1):
-        rep.case("trace:E%d,NB%d,NV%d,NT%d,ev%d,cb%d,fit%d" % (info["E"], info["NB"], info["NV"], info["NT"], info["evaluator"], info["callbacks"], tr["fit"]))
+        rep.case("trace:E%d,NB%d,NV%d,NT%d,ev%d,cb%s,fit%d" % (info["E"], info["NB"], info["NV"], info["NT"], info["evaluator"], info["callbacks"], tr["fit"]))
         rep.traces += 1
         b = best.get(i, dict(l=0, done=False, phase="?"))
         if b["done"]:
